@@ -501,11 +501,18 @@ func (x *c12Buf) start(r *c12Run) {
 					return
 				}
 				if commit {
-					if err := c.Commit(); err == nil {
+					err := c.Commit()
+					if err == nil {
 						k.commits += pending
 						pending = 0
 						return
 					}
+					// Closing (of the consumer or of its Buffer) waits for exactly these reads to be
+					// resolved and completes only afterwards, so this Commit is not one of the "later"
+					// calls that fail: a user that commits what it reads (and returns on an error, as
+					// users do) must be able to let the close terminate.
+					simrt.Failf("C12.commit-refused", "%s: Commit of %d outstanding read(s) failed with %v; a close in progress waits for these reads to be committed and cannot have completed", k.h.name, pending, err)
+					return
 				}
 				_ = c.Rollback()
 				pending = 0
